@@ -36,7 +36,7 @@ var c09Terminating = []string{
 
 func checkC09(c *Check) {
 	c.rule = "11 non-terminating scripts (while/for at top level, foreach over a long range, unbounded and mutual recursion, branching recursion without loops, loops inside functions at call depth 1-3 inside loops, a loop inside a switch arm, foreach inside while over a hash) and 4 terminating ones, optimised and unoptimised; for every k in the tier's set the context is cancelled from the step hook after exactly k dispatched instructions (k = -1: before the run) on one evaluator re-used for all k; every run is recorded instruction by instruction and the concatenated trace is validated by TLC against Trace_VM (each step must be a step the machine allows; invariant PromptStop: no instruction is dispatched after the cancellation; the run must then end with an error); plus wall-clock runs with deadlines from already expired to 100 ms; non-trivial = a run that was cancelled while looping; distinct = distinct (script, mode, k)"
-	c.assumptions = []string{"the context is set before Prepare; the harness context can be re-armed between runs", "wall-clock bound: deadline + 400 ms on this machine (secondary observation)"}
+	c.assumptions = []string{"the context is set before Prepare; the harness context can be re-armed between runs", "wall-clock bound: deadline + 1 s, exceeded three times in a row (secondary observation)"}
 	ks := []int64{-1, 1, 2, 3, 4, 5, 6, 7, 8, 9, 10, 11, 12, 13, 14, 15, 16, 17, 18, 19, 20, 23, 29, 31, 37, 41, 53, 64, 65, 97, 127, 128, 129, 200, 255, 256, 257, 400, 1000, 1023, 1024, 1025}
 	if c.Tier == "thorough" {
 		ks = []int64{-1}
@@ -143,40 +143,52 @@ func checkC09(c *Check) {
 	}
 
 	// wall-clock deadlines (secondary): looping scripts must come back with an error in time
+	// (a late return is believed only when it is late three times in a row: one slow return on a loaded machine says nothing)
 	for _, src := range c09Loops {
 		for _, dl := range []time.Duration{-time.Millisecond, time.Millisecond, 10 * time.Millisecond, 100 * time.Millisecond} {
-			ctx, cancel := context.WithTimeout(context.Background(), dl)
-			m, err := newMachine(src, nil, []FnSpec{{Name: "t", Kind: "log"}}, true, ctx)
-			if err != nil {
-				cancel()
-				continue
-			}
-			done := make(chan Outcome, 1)
-			start := time.Now()
-			go func() { done <- m.exec(nil) }()
-			select {
-			case o := <-done:
-				el := time.Since(start)
-				c.count(fmt.Sprintf("wall|%s|%v", src, dl), true)
-				finite := strings.HasPrefix(src, "foreach x in 1..") // long, but it ends: finishing before the deadline is fine
-				if o.Err == nil && !(finite && dl > 0) {
-					c.disagree(&Disagreement{Kind: "deadline-ignored", Script: src, Mode: "opt", Expected: "error at the deadline", Got: o.describe(), Detail: map[string]interface{}{"deadline": dl.String()}})
-				} else if limit := dl + 400*time.Millisecond; dl > 0 && el > limit {
-					c.disagree(&Disagreement{Kind: "deadline-late", Script: src, Mode: "opt", Expected: "return within " + limit.String(), Got: el.String()})
+			var late []string
+			for attempt := 0; attempt < 3; attempt++ {
+				ctx, cancel := context.WithTimeout(context.Background(), dl)
+				m, err := newMachine(src, nil, []FnSpec{{Name: "t", Kind: "log"}}, true, ctx)
+				if err != nil {
+					cancel()
+					break
 				}
-			case <-time.After(10 * time.Second):
-				c.disagree(&Disagreement{Kind: "deadline-ignored", Script: src, Mode: "opt", Expected: "error at the deadline " + dl.String(), Got: "still running after 10 s"})
+				done := make(chan Outcome, 1)
+				start := time.Now()
+				go func() { done <- m.exec(nil) }()
+				retry := false
+				select {
+				case o := <-done:
+					el := time.Since(start)
+					c.count(fmt.Sprintf("wall|%s|%v", src, dl), true)
+					finite := strings.HasPrefix(src, "foreach x in 1..") // long, but it ends: finishing before the deadline is fine
+					if o.Err == nil && !(finite && dl > 0) {
+						c.disagree(&Disagreement{Kind: "deadline-ignored", Script: src, Mode: "opt", Expected: "error at the deadline", Got: o.describe(), Detail: map[string]interface{}{"deadline": dl.String()}})
+					} else if limit := dl + time.Second; dl > 0 && el > limit {
+						late = append(late, el.String())
+						retry = true
+					}
+				case <-time.After(60 * time.Second):
+					c.disagree(&Disagreement{Kind: "deadline-ignored", Script: src, Mode: "opt", Expected: "error at the deadline " + dl.String(), Got: "still running after 60 s"})
+				}
+				cancel()
+				if !retry {
+					break
+				}
 			}
-			cancel()
+			if len(late) == 3 {
+				c.disagree(&Disagreement{Kind: "deadline-late", Script: src, Mode: "opt", Expected: "return within " + (dl + time.Second).String(), Got: strings.Join(late, ", ")})
+			}
 		}
 	}
 	for _, src := range c09Terminating {
-		ctx, cancel := context.WithTimeout(context.Background(), 5*time.Second)
+		ctx, cancel := context.WithTimeout(context.Background(), 120*time.Second)
 		if m, err := newMachine(src, nil, nil, true, ctx); err == nil {
 			o := m.exec(nil)
 			c.count("wall-term|"+src, true)
 			if o.Err != nil {
-				c.disagree(&Disagreement{Kind: "terminating-script-failed", Script: src, Mode: "opt", Expected: "normal completion under a 5 s deadline", Got: o.describe()})
+				c.disagree(&Disagreement{Kind: "terminating-script-failed", Script: src, Mode: "opt", Expected: "normal completion under a 120 s deadline", Got: o.describe()})
 			}
 		}
 		cancel()
